@@ -9,6 +9,7 @@ import (
 	"strconv"
 	"strings"
 	"sync"
+	"sync/atomic"
 	"time"
 
 	"google.golang.org/protobuf/types/known/anypb"
@@ -87,7 +88,13 @@ type concRun struct {
 	s      *csched
 	trace  []interface{}
 	cached map[string]bool
+	// stuck: a party is blocked where nothing can release it (a lock that nobody gives back): the schedule ends there
+	stuck string
 }
+
+// stuckSchedules counts the schedules of this process that ended stuck; after a few of them the enumeration stops
+// (every one costs its patience in real time and they all say the same).
+var stuckSchedules int32
 
 func newConcRun(names []string, rt string, fetch ...time.Duration) (*concRun, error) {
 	if rt == "" {
@@ -205,6 +212,10 @@ func (r *concRun) waitParked(id int, d time.Duration) bool {
 			}
 		}
 		if time.Now().After(deadline) {
+			if gid > 0 && d >= 5*time.Second && r.stuck == "" {
+				st, _ := gstate(gid)
+				r.stuck = fmt.Sprintf("lookup %d neither reached its next point nor waits in its select after %v (goroutine state: %s)", id, d, st)
+			}
 			return false
 		}
 		time.Sleep(20 * time.Microsecond)
@@ -359,7 +370,16 @@ func (r *concRun) cancelT(id int) {
 
 func (r *concRun) evict(name string) {
 	delete(r.cached, name)
-	r.w.m.VerifEvict(rtOf(r.rt), name)
+	done := make(chan struct{})
+	go func() { r.w.m.VerifEvict(rtOf(r.rt), name); close(done) }()
+	select {
+	case <-done:
+	case <-time.After(5 * time.Second):
+		if r.stuck == "" {
+			r.stuck = "the eviction of " + name + " waits for the manager lock for 5s while no lookup is running"
+		}
+		return
+	}
 	r.w.settle()
 	r.trace = append(r.trace, obj{"s": "evict", "n": name})
 }
@@ -367,7 +387,7 @@ func (r *concRun) evict(name string) {
 // finish drives every thread to completion; a thread still in the select is cancelled (that it needed its
 // deadline is recorded: `forced`).
 func (r *concRun) finish() {
-	for round := 0; round < 50; round++ {
+	for round := 0; round < 50 && r.stuck == ""; round++ {
 		progress := false
 		r.s.mu.Lock()
 		var ids []int
@@ -435,6 +455,9 @@ func runSchedule(c *ctx, sc concScenario, actions []string, emit bool) (avail []
 	for _, a := range actions {
 		var k int
 		var nm string
+		if r.stuck != "" {
+			break
+		}
 		switch a[0] {
 		case 'T':
 			fmt.Sscanf(a, "T%d", &k)
@@ -459,6 +482,16 @@ func runSchedule(c *ctx, sc concScenario, actions []string, emit bool) (avail []
 			fmt.Sscanf(a, "S%d", &k)
 			time.Sleep(time.Duration(k) * time.Millisecond)
 		}
+	}
+	if r.stuck != "" {
+		// nothing can release the blocked party: the schedule is reported as it stands
+		if emit {
+			atomic.AddInt32(&stuckSchedules, 1)
+			r.trace = append(r.trace, obj{"s": "stuck", "what": r.stuck})
+			sj := obj{"names": sc.names, "rt": r.rt, "ftMs": sc.fetch.Milliseconds()}
+			c.emit(obj{"op": "sched", "scenario": sj, "actions": actions, "trace": r.trace})
+		}
+		return nil, false
 	}
 	// what can happen next (from the observed phases)
 	for i := range sc.names {
@@ -491,6 +524,10 @@ func runSchedule(c *ctx, sc concScenario, actions []string, emit bool) (avail []
 	}
 	if emit {
 		r.finish()
+		if r.stuck != "" {
+			atomic.AddInt32(&stuckSchedules, 1)
+			r.trace = append(r.trace, obj{"s": "stuck", "what": r.stuck})
+		}
 		sj := obj{"names": sc.names, "rt": r.rt, "ftMs": sc.fetch.Milliseconds()}
 		c.emit(obj{"op": "sched", "scenario": sj, "actions": actions, "trace": r.trace})
 	}
@@ -502,7 +539,7 @@ func enumerate(c *ctx, sc concScenario, limit int) int {
 	count := 0
 	var dfs func(prefix []string)
 	dfs = func(prefix []string) {
-		if count >= limit || c.expired() {
+		if count >= limit || c.expired() || atomic.LoadInt32(&stuckSchedules) >= 3 {
 			return
 		}
 		avail, _ := runSchedule(c, sc, prefix, false)
